@@ -8,7 +8,7 @@ Open Scope N_scope.
 Definition lookup_value (coll index : json) : option json :=
   match coll with
   | JArr v => match index with
-              | JNum n => match as_u64 n with Some u => nth_error v (N.to_nat u) | None => None end
+              | JNum n => match as_u64 n with Some u => nth_N v u | None => None end
               | _ => None
               end
   | JObj m => match index with JStr k => map_get m k | _ => None end
